@@ -34,14 +34,14 @@ Print Assumptions C19_inv_test_sound.
 
 (* --------------------------------------------------------------------------------------------- instances *)
 (* CalcKriging (kriging, krigtest, xvalid on two Dbs, test_neigh, ...): every option except DGM, all targets or a
-   single target (whose outputs are temporary variables: _rollback cleans both lists since fix C19_1);
+   single target (whose outputs are temporary variables: g_rb2, i.e. _rollback also cleans the temporary list, fix C19_1);
    no external-drift expansion needed *)
 Theorem C19_CalcKriging_atomic : forall (c : cfg) (gout : bool) din dout fs fk s',
-  Inv din -> Inv dout -> g_dgm c = false ->
+  Inv din -> Inv dout -> g_dgm c = false -> (g_single c < 0 \/ g_rb2 c = true) ->
   expand_noop L_F din dout = true -> expand_noop L_NOSTAT din dout = true -> fs <> 4 ->
   calc_run (kriging c gout) (init_st din dout false) fs fk = (false, s') ->
   db_eq (s_in s') din /\ db_eq (s_out s') dout.
-Proof. intros c gout din dout fs fk s' Hi Ho Hd HF HN. apply atomic_generic; try assumption. apply wf_kriging; assumption. Qed.
+Proof. intros c gout din dout fs fk s' Hi Ho Hd Hs HF HN. apply atomic_generic; try assumption. apply wf_kriging; assumption. Qed.
 Print Assumptions C19_CalcKriging_atomic.
 
 (* kriging on a dbin without any variable is refused by _check, whatever else (fix C19_5) *)
@@ -49,7 +49,7 @@ Theorem C19_CalcKriging_no_variable_fails_in_check : forall (c : cfg) (gout : bo
   g_neigh_only c = false -> locnum din L_Z = 0 ->
   failing_stage (kriging c gout) (init_st din dout false) fs fk = 1 /\
   calc_run (kriging c gout) (init_st din dout false) fs fk =
-    (false, exec_quiet (g_nc c) (rollback_std (g_dgm c)) (init_st din dout false)).
+    (false, exec_quiet (g_nc c) (rollback_std c (g_dgm c)) (init_st din dout false)).
 Proof. exact kriging_no_variable. Qed.
 Print Assumptions C19_CalcKriging_no_variable_fails_in_check.
 
@@ -62,9 +62,9 @@ Print Assumptions C19_CalcAnamTransform_atomic.
 
 (* including dbg2gShrink and its auxiliary temporary variable (fix C19_4) *)
 Theorem C19_CalcGridToGrid_atomic : forall (c : cfg) din dout fs fk s',
-  Inv din -> Inv dout -> fs <> 4 ->
+  Inv din -> Inv dout -> (g_mode c <> 1 \/ g_rb2 c = true) -> fs <> 4 ->
   calc_run (g2g c) (init_st din dout false) fs fk = (false, s') -> db_eq (s_in s') din /\ db_eq (s_out s') dout.
-Proof. intros c din dout fs fk s' Hi Ho. apply atomic_generic; try assumption. apply wf_g2g. Qed.
+Proof. intros c din dout fs fk s' Hi Ho Hm. apply atomic_generic; try assumption. apply wf_g2g; assumption. Qed.
 Print Assumptions C19_CalcGridToGrid_atomic.
 
 Theorem C19_CalcMigrate_atomic : forall (c : cfg) din dout fs fk s',
@@ -101,7 +101,7 @@ Print Assumptions C19_CalcGlobal_atomic.
    cleaned by _rollback since fix C19_3).  Atomic -- and the Dbs well-formed again -- provided no variable carried
    the SIMU locator before the call (otherwise: known findings *:existing-simu-locator-lost below).  Not DGM. *)
 Theorem C19_CalcSimuTurningBands_atomic : forall (c : cfg) gout din dout fs fk s',
-  Inv din -> Inv dout -> g_dgm c = false ->
+  Inv din -> Inv dout -> g_dgm c = false -> (g_has_in c = false \/ g_rb2 c = true) ->
   getloc (d_locs din) L_SIMU = [] -> getloc (d_locs dout) L_SIMU = [] ->
   expand_noop L_F din dout = true -> expand_noop L_NOSTAT din dout = true -> fs <> 4 ->
   calc_run (simtub c gout) (init_st din dout false) fs fk = (false, s') ->
